@@ -123,10 +123,15 @@ def make_dst(m, f, dst):
     kind = dst[0]
     if kind == "ret":
         vals = {m.rets[n] for n in dst[1]}
+        only_states = {m.enum[x] for x in dst[2]} if len(dst) > 2 else None
 
         def pred(node):
             if node[0] != f.exit:
                 return None
+            if only_states is not None:
+                sv = g.get(node[1], "seq")
+                if sv is None or not (set(sv) <= only_states):
+                    return None
             rv = g.get(node[1], "$ret")
             if rv is None:
                 return "return <unknown>"
